@@ -196,6 +196,29 @@ class IdIndex(Index):
         elif operation == "delete":
             txn.delete(self.to_key(event.id))
 
+    @contextmanager
+    def scanner(self, txn, matches: list, since=None, until=None, events=FakeContainer()):
+        # the key is just the id: there is nothing to walk,
+        # and since/until are checked against the record by matcher()
+        def iterator():
+            seen = set()
+            for match in matches:
+                try:
+                    key = self.to_key(match)
+                except ValueError:
+                    continue
+                event_id = key[1:]
+                if (
+                    len(event_id) == 32
+                    and event_id not in seen
+                    and event_id in events
+                    and txn.get(key) is not None
+                ):
+                    seen.add(event_id)
+                    yield event_id
+
+        yield iterator()
+
 
 class CreatedIndex(Index):
     prefix = b"\x01"
